@@ -446,3 +446,16 @@ Definition run_build (f : fs) : result :=
                 (NOut {| g_project := norm (project_path c); g_lib := validation_library c; g_viz := e_visualize e |}))
   | _ => RNoCommands e f
   end.
+
+(* ---------------------------------------------------------------- init -o <standalone file> *)
+(* bin run_init with a target not named tauri.conf.json (t = the -o value): an existing
+   target is only overwritten with --force; the settings are validated before the file is
+   created; save_to_file writes the twelve keys; then the initial generation runs.
+   (The directory of the target is assumed to exist: the correspondence only uses such targets.) *)
+Definition run_init_file (f : fs) (il : iflags) (force : bool) : result :=
+  let t := or_else (i_output il) "tauri.conf.json" in
+  if fs_exists f t && negb force then RFail f
+  else match validate f (init_config il) with
+       | Some e => RReject e f
+       | None => run_generate (fs_put f t (NDoc (Some (flat_json (init_config il))))) (init_flags il)
+       end.
